@@ -241,6 +241,9 @@ func TestVerifC02Trace(t *testing.T) {
 	if kit.Thorough() {
 		rounds = 400
 	}
+	if kit.Env("C02_DEEP_ONLY", "") == "1" { // the deep-backlog rounds alone (also run under C01)
+		rounds = 5
+	}
 	for r := 0; r < rounds && res.NumViolations() < 3; r++ {
 		n := []int{3, 8, 12, 40, 120}[rng.Intn(5)]
 		closeIdx := -1
